@@ -139,3 +139,10 @@ Proof.
     rewrite <- Htxt in Hb1, Hb2. eapply range_valid_intro; eassumption.
   - apply c17_folding_ranges_valid. exact Hf.
 Qed.
+
+(** non-vacuity of the parse hypotheses: "class A;\n// é\nclass B : A;" parses; 2 folding ranges, the second one
+    starts after the two-byte character *)
+Example c17_parse_ex : exists t errs st,
+  parse_with 100 grammar_prog grammar_entry c17_text = ParseOk t errs st /\
+  folding_model t = [(0, 8); (15, 27)] /\ (10 <= List.length (descendants t))%nat.
+Proof. vm_compute. do 3 eexists. split; [reflexivity|]. split; [reflexivity|]. repeat constructor. Qed.
